@@ -1,5 +1,7 @@
 import RbV.Basic.Codec
 import RbV.Spec.RankSelect
+import RbV.Model.RankSelect
+import RbV.Model.Wavelet
 /-! Driver for property C17 (rank/select and wavelet matrix equal naive counting).
 
 ```
@@ -8,7 +10,9 @@ c17 wm <hex text> => <ranks of A>;<C>;<G>;<T>;<N>;<$>
 c17 tab dna2int => <128 entries>
 ```
 Expected values come from `rankRef` / `selectRef` / `occ` (evaluated through the one-pass tables
-`prefixCounts` / `positions`, proved equal to them). -/
+`prefixCounts` / `positions`, proved equal to them).  The mirror models (`RbV.Model.RankSelect`,
+`RbV.Model.Wavelet`) are evaluated on every query as well; they are proved equal to the references
+(`RbV/Thm/C17.lean`), so a disagreement is a defect of this machinery (`bad-op`), never a verdict on rust-bio. -/
 namespace RbV.Drv.C17
 open RbV.Codec RbV.Spec.RankSelect
 
@@ -58,6 +62,15 @@ def verdictRs (kT nT fT hx rT sT out : String) : String :=
       let er0 := ris.map (fun i => pc0[i]?)
       let es1 := sjs.map (fun j => if j = 0 then none else ps1[j - 1]?)
       let es0 := sjs.map (fun j => if j = 0 then none else ps0[j - 1]?)
+      -- mirror model of superblocks / rank_1 / rank_0 / select_x, blocks read from an array
+      let blocks := (Model.RankSelect.chunks bits).toArray
+      let gb := fun b => blocks.getD b []
+      let rs := Model.RankSelect.build bits k gb
+      let mr1 := ris.map (fun i => Model.RankSelect.rank1 n rs.s gb rs.sbs1 i)
+      let mr0 := ris.map (fun i => Model.RankSelect.rank0 n rs.s gb rs.sbs1 i)
+      let ms1 := sjs.map (fun j => Model.RankSelect.selectX n rs.s gb rs.sbs1 true j)
+      let ms0 := sjs.map (fun j => Model.RankSelect.selectX n rs.s gb rs.sbs0 false j)
+      if mr1 ≠ er1 ∨ mr0 ≠ er0 ∨ ms1 ≠ es1 ∨ ms0 ≠ es0 then "bad-op model-and-spec-disagree" else
       if out.startsWith "PANIC" || out.startsWith "HANG" || out.startsWith "CRASH" then "reject rs-" ++ out else
       match out.splitOn " " with
       | [a, b, c, d, g] =>
@@ -93,6 +106,16 @@ def verdictWm (hx out : String) : String :=
     match parseListNE parseNatList out ';' with
     | some rows =>
       let exp := dnaSyms.map (fun c => (prefixCounts true (text.map (· == c)) 0))
+      -- mirror model of the three-level wavelet matrix over the literal code table
+      let code := fun v => dna2intLit.getD v 0
+      let levels := Model.Wavelet.build code text
+      let pcs := (levels.map (fun lv => ((prefixCounts false lv.bits 0).toArray, (prefixCounts true lv.bits 0).toArray))).toArray
+      let rk := fun (level : Nat) (b : Bool) (i : Nat) =>
+        match pcs[level]? with
+        | some (p0, p1) => if b then p1[i]? else p0[i]?
+        | none => none
+      let mod := dnaSyms.map (fun c => (List.range text.length).map (fun p => Model.Wavelet.rank code rk levels c p))
+      if mod ≠ exp then "bad-op model-and-spec-disagree" else
       if rows = exp then
         let distinct := (dnaSyms.filter (fun c => text.contains c)).length
         "ok" ++ (if text.length ≥ 2 ∧ distinct ≥ 2 then " nt" else "") ++ s!" wm syms{distinct}"
